@@ -438,6 +438,8 @@ def c_step(o):
         return "SRecover %s %s" % (cN(o["n"]), cN(o["p"]))
     if t == "sub":
         return "SSub %s %s %s" % (cN(o["n"]), cN(o["s"]), cbool(o.get("filter", False)))
+    if t == "stall":
+        return "SStall %s %s" % (cN(o["n"]), cN(o["s"]))
     raise ValueError(t)
 
 
